@@ -1,7 +1,7 @@
 """C10 — gzip compression of an image file is transparent.  Engine E1."""
 
 from sim.orch import CheckBase, Outcome
-from sim import dfswork
+from sim import dfswork, fluxwork
 from sim.models import dfsdisc as dd
 from sim.models import gz
 
@@ -61,6 +61,12 @@ class C10(CheckBase):
             s = dd.gen_surface(rng, variant='acorn', geom=rng.choice([(40, 10), (80, 10)]))
             s.volumes[0].files = s.volumes[0].files[:rng.randint(0, 2)]
             image = {'ext': 'ssd', 'surfaces': [s.to_json()], 'cut_sectors': rng.choice([2, 3, 4, 10, None])}
+        elif rng.chance(0.15):
+            # a flux image; optionally the file ends inside the padding after the last track
+            fc = fluxwork.gen_fluxcase(rng, small=True, sides=1)
+            s = dd.gen_surface(rng, variant='acorn', geom=(fc['tracks'], fc['spt']), img_id=3, side=0)
+            image = {'ext': 'mfm' if fc['container'] == 'mfm' else 'hfe', 'surfaces': [s.to_json()], 'genflux': fc,
+                     'trim': rng.choice([0, 0, 1, 100, 255, 256, 300, 511])}
         else:
             image = dfswork.gen_image(rng)
         drives = [(d, i) for d, i in dfswork.image_drives(image) if i is not None]
@@ -85,6 +91,15 @@ class C10(CheckBase):
 
     # ------------------------------------------------------------------ execution
     def image_bytes(self, image):
+        if 'genflux' in image:
+            data, _ = fluxwork.build_from_json(image['genflux'], image['surfaces'], None)
+            trim = image.get('trim', 0)
+            if trim:
+                # only padding may go: never cut into recorded cells
+                pad = len(data) - len(data.rstrip(b'\0'))
+                trim = min(trim, max(0, pad - 8))
+                data = data[:len(data) - trim] if trim else data
+            return data
         data = dfswork.render_image(image)
         if image.get('cut_sectors'):
             data = data[:image['cut_sectors'] * 256]
